@@ -61,8 +61,8 @@ Definition lstep (q : lcqm) (o : lop) : lcqm :=
   | LFixVariable l a =>
       match resolve labels l with Some v => mkL (remove_nth v labels) (mstep m (MFixVariable v a)) | None => q end
   | LSubstitute l x c => match resolve labels l with Some v => mkL labels (mstep m (MSubstitute v x c)) | None => q end
-  (* iter_safe_relabels rejects a mapping whose result would have a duplicate label (Variables._relabel, C13) *)
-  | LRelabel mp => if relabel_ok mp labels && nodupb (map (relabel_fun mp) labels) then mkL (map (relabel_fun mp) labels) m else q
+  (* the mapping is a Python dict (distinct keys); iter_safe_relabels rejects it before anything changes *)
+  | LRelabel mp => if relabel_ok mp labels && nodupb (map fst mp) then mkL (map (relabel_fun mp) labels) m else q
   | LEdit t o => match resolve_eop labels o with Some o' => mkL labels (mstep m (MEdit t o')) | None => q end
   | LAddConstraintMove lin quad off labs sense rhs =>
       match resolve_all labels labs with
@@ -114,7 +114,7 @@ Definition lsstep (q : slab) (o : lop) : slab :=
       if memb l labels then mkSL (del l) (fix_variable l a (sl_obj q)) (map (fix_variable l a) (sl_cons q)) else q
   | LSubstitute l x c => if memb l labels then all (substitute l x c) else q
   | LRelabel mp =>
-      if relabel_ok mp labels && nodupb (map (relabel_fun mp) labels)
+      if relabel_ok mp labels && nodupb (map fst mp)
       then mkSL (map (fun x => (relabel_fun mp (fst x), snd x)) (sl_vars q))
                 (relabel (relabel_fun mp) (sl_obj q)) (map (relabel (relabel_fun mp)) (sl_cons q))
       else q
